@@ -54,7 +54,7 @@ json_attr = st.one_of(st.sampled_from(["m", "some text", ""]), st.integers(-5, 5
                       st.lists(st.integers(0, 4), max_size=3), st.fixed_dictionaries({"k": st.lists(st.sampled_from(["a", 1, 2.5]), max_size=2)}))
 nc_attr = st.one_of(st.sampled_from(["m", "some text", "K"]), st.integers(-5, 5), st.sampled_from([0.5, -2.25]), st.lists(st.integers(0, 4), min_size=2, max_size=3),
                     st.lists(st.sampled_from([0.5, 1.5, 2.0]), min_size=2, max_size=3))
-attr_names = st.sampled_from(["units", "long_name", "comment", "scale", "history", "note"])
+attr_names = st.sampled_from(["units", "long_name", "comment", "scale", "history", "note", "name"])
 
 
 @st.composite
@@ -256,6 +256,10 @@ def run_json(case):
     check(isinstance(s, str), "to_json-not-a-string", {"what": what}, sig)
     b = lib(lambda: da.DimArray.from_json(s), what=what, sig=sig)
     core.expect_equal_arrays(b, a, what, sig=sig)
+    for d_, la, lb in zip(spec["dims"], a.labels, b.labels):
+        # labels are restored as what they were: float labels stay floats (0.0 is not 0), strings stay strings
+        ka, kb = ("s" if la.dtype.kind in "OUS" else la.dtype.kind), ("s" if lb.dtype.kind in "OUS" else lb.dtype.kind)
+        check(ka == kb or len(la) == 0, "json-label-kind", {"what": what, "dim": d_, "got": str(lb.dtype), "expected": str(la.dtype)}, sig)
     check(core.attrs_equal(b.attrs, spec.get("attrs", {})), "json-attrs", {"what": what, "got": core.jsonable(b.attrs), "expected": core.jsonable(spec.get("attrs", {}))}, sig)
     core.expect_unchanged(a, snap, what, sig)
     cl = ["json"] + (["json:str-values"] if spec["vk"] == "s" else []) + (["json:0d"] if not spec["dims"] else [])
